@@ -496,10 +496,17 @@ fn valid_program(rng: &mut Rng) -> Program {
 
 pub fn run(ctx: &mut Ctx) {
     if ctx.miri {
+        // quick: a rotating third of the named programs (chosen by the seed); thorough: all of them
+        let stride = if ctx.scale >= 4.0 { 1 } else { 3 };
+        let off = ctx.seed % stride;
         ctx.cases("miri_named", NAMED.len() as u64, |ctx, _, idx| {
-            check_case(ctx, NAMED[idx as usize], b"5\nabc\n", "named");
+            // (deep recursion takes minutes under Miri and adds no new code path there)
+            if idx % stride == off && !NAMED[idx as usize].contains("taking 60") {
+                check_case(ctx, NAMED[idx as usize], b"5\nabc\n", "named");
+            }
         });
-        ctx.cases("miri_templates", ctx.nshards as u64 * 3, |ctx, rng, _| {
+        let nt = (ctx.nshards as f64 * ctx.scale.max(1.0)) as u64;
+        ctx.cases("miri_templates", nt, |ctx, rng, _| {
             let idx = rng.next_u64() % (TEMPLATES.len() as u64 * 44);
             if let Some((src, _)) = w1b(idx) {
                 check_case(ctx, &src, b"", "template");
